@@ -38,6 +38,11 @@ type Input struct {
 	Launch []string     `json:"launch"` // run | fail | silent | nooffer | nores
 	Cfg    []string     `json:"cfg"`
 	Ops    []Op         `json:"ops"`
+	// shape of the workflow, invisible to the model (the root's status is the fold of the leaves
+	// however they are grouped): the first Nest tasks sit under an aggregator role "g"; Gate (Nest = 2,
+	// no call role) forces the interleaving of the two TASK_RUNNING updates described in gate.go
+	Nest int  `json:"nest,omitempty"`
+	Gate bool `json:"gate,omitempty"`
 }
 
 type StepObs struct {
@@ -171,7 +176,16 @@ func runCaseOnce(w *c0203.World, idx int, try int, in Input) (obsOut []StepObs, 
 		hang = 150 * time.Second
 	}
 	t0 := time.Now()
+	gateNotes := func() (string, bool) { return "", false }
+	if nestable(in) {
+		w.YAMLOf, w.PathOf = nestedYAML(in.Nest), nestedPath(in.Nest)
+		if in.Gate && in.Nest == 2 && in.NCalls == 0 {
+			gateNotes = armGateCase(w)
+		}
+	}
 	env, cr := w.Create(name, in.Tasks, in.Launch, in.Cfg, calls, deployTimeout, hang)
+	gateDiag, lostUpdate := gateNotes()
+	defer func() { w.YAMLOf, w.PathOf = nil, nil }() // the role paths are needed until the case is over
 	var obs []StepObs
 	first := StepObs{Err: cr.Err != nil, Hang: cr.Hang, Reported: env.Reported(), Cmded: env.Commanded("CONFIGURE"), Tasks: [][2]int{}}
 	if cr.Err != nil {
@@ -197,8 +211,11 @@ func runCaseOnce(w *c0203.World, idx int, try int, in Input) (obsOut []StepObs, 
 	if (cr.Err != nil || cr.Hang) && deploymentScriptedToSucceed(in) {
 		first.Diag = fmt.Sprintf("accepts=%d %s", env.Accepts(), strings.Join(env.Trace(), "; "))
 	}
+	if gateDiag != "" {
+		first.Diag = strings.TrimSpace("gate: " + gateDiag + ". " + first.Diag)
+	}
 	if cr.Err != nil && !cr.Hang && deploymentScriptedToSucceed(in) && strings.Contains(cr.Err.Error(), "workflow deployment timed out") &&
-		env.AllRunActive(in.Launch) {
+		env.AllRunActive(in.Launch) && !lostUpdate { // a forced lost update (gate.go) is no accident
 		accident = true
 	}
 	if cr.Hang {
@@ -596,6 +613,17 @@ func genCase(r *gen.Rand, thorough bool, allowSlow bool) (Input, string) {
 			}
 		}
 	}
+	// shape: 1 case in 5 with two tasks or more puts its first tasks under an aggregator role; when
+	// exactly the first two are and nothing else can disturb the root (no call role, every task
+	// launches) the interleaving of gate.go is forced
+	if n >= 2 && r.Chance(1, 5) {
+		in.Nest = r.Range(2, n)
+		if !nestable(in) {
+			in.Nest = 0
+		} else if in.Nest == 2 && in.NCalls == 0 && !deployFails {
+			in.Gate = true
+		}
+	}
 	return in, kind
 }
 
@@ -699,6 +727,15 @@ func corpus() []job {
 	add("corpus-no-tasks-walk", Input{NCalls: 1, Tasks: []c0203.Task{}, Launch: []string{}, Cfg: []string{},
 		Ops: []Op{{Kind: "cmd", Ev: "START", Oc: []string{}}, {Kind: "cmd", Ev: "STOP", Oc: []string{}}, {Kind: "cmd", Ev: "RESET", Oc: []string{}},
 			{Kind: "cmd", Ev: "CONFIGURE", Oc: []string{}}}})
+	// status aggregation under concurrent updates (gate.go): two levels of aggregation, the last two
+	// TASK_RUNNING updates interleaved inside the merge of the root; critical and non-critical tasks,
+	// with and without a third task outside the group that reports first... and after
+	add("corpus-gate-two-critical", Input{Nest: 2, Gate: true, Tasks: []c0203.Task{t(true, "direct", 1), t(true, "fairmq", 2)}, Launch: []string{"run", "run"}, Cfg: []string{"ack", "ack"},
+		Ops: []Op{{Kind: "cmd", Ev: "START", Oc: []string{"ack", "ack"}}}})
+	add("corpus-gate-noncritical", Input{Nest: 2, Gate: true, Tasks: []c0203.Task{t(false, "basic", 3), t(true, "direct", 1)}, Launch: []string{"run", "run"}, Cfg: []string{"ack", "ack"}})
+	add("corpus-nested-walk", Input{Nest: 2, NCalls: 1, Tasks: []c0203.Task{t(true, "direct", 1), t(false, "fairmq", 2), t(true, "basic", 3)}, Launch: []string{"run", "run", "run"}, Cfg: []string{"ack", "errsrc", "ack"},
+		Ops: []Op{{Kind: "cmd", Ev: "START", Oc: []string{"ack", "sendfail", "ack"}}, {Kind: "kill", I: 1}, {Kind: "cmd", Ev: "STOP", Oc: []string{"ack", "ack", "errerr"}}}})
+	add("corpus-nested-deploy-noncritical", Input{Nest: 2, Tasks: []c0203.Task{t(true, "direct", 1), t(false, "basic", 2)}, Launch: []string{"run", "fail"}, Cfg: []string{"ack", "ack"}})
 	return js
 }
 
